@@ -730,3 +730,12 @@ _run_w11 = run
 def run(ctx, rep, tier):
     _run_w11(ctx, rep, tier)
     _emitted_units_are_wellformed(ctx, rep, tier)
+
+
+_run_r6 = run
+
+
+def run(ctx, rep, tier):
+    _run_r6(ctx, rep, tier)
+    from .shared import delegate
+    delegate(ctx, rep, tier, "C06", ("C06.n",), "C11.x", "every constant stored into the state member fits its declared type (gcc -Werror=overflow otherwise): the member is sized for the largest number any template stores")
